@@ -24,6 +24,10 @@ def run(tier, seed):
         else:
             pool = rnd.sample(plain, 3) + (list(rnd.choice(col)[1][:2]) if col else [])
         peers = rnd.choice([(1000, 1001), (1000, 1001, 1002, 0, 4242), tuple(2000 + i for i in range(8)) + (1000,)])
+        if k % 8 == 7:
+            # long histories of few users in which every other request is a listing, the checkpoint timer in between
+            scripts.append(daemon.map_script(rnd, pool, peers=rnd.choice([(1000, 1001), (1000, 1001, 1002), (1000, 2001, 2002, 2035)]), nreq=rnd.choice([25, 40, 60]), listy=True))
+            continue
         scripts.append(daemon.map_script(rnd, pool, peers=peers, nreq=rnd.choice([3, 5, 8, 14])))
     recs = daemon.run_many(drv, scripts, wd)
     trace = f'{wd}/map.ndjson'
@@ -41,7 +45,7 @@ def run(tier, seed):
     nitems = sum(len(e.get('items', [])) for r in recs for e in r['ev'] if e['e'] == 'Req')
     cov = {'states': e1['states'], 'transitions': e1['transitions'], 'traces_validated_against_impl': v['n'],
            'samples': [{'events': [e for e in recs[0]['ev'] if e['e'] != 'State']}], 'evaluations': v['n'], 'distinct_nontrivial': len(set('\n'.join(c) for c, _ in scripts)),
-           'rule': 'one case = one history of requests against the real cmd_ical()/cmd_http() with chosen peer credentials: adds (1..3 events per request, optional X-ECHS-OWNER by uid or name, own/other/unknown), cancels, GET /sched, /queue and /u/<other>/...; peers incl. root, a uid without passwd entry and up to 9 users; UID strings chosen with the real hash so that groups of 2..4 share 4..16 low bits of their table key',
+           'rule': 'one case = one history of requests against the real cmd_ical()/cmd_http() with chosen peer credentials: adds (1..3 events per request, optional X-ECHS-OWNER by uid or name, own/other/unknown), cancels, GET /sched, /queue (UIDs and the DTSTART each task is shown with) and /u/<other>/...; one history in eight is long (25..60 requests, half of them listings, the checkpoint timer in between); peers incl. root, a uid without passwd entry and up to 9 users; UID strings chosen with the real hash so that groups of 2..4 share 4..16 low bits of their table key',
            'requests': nreq, 'request_items': nitems, 'listings': nhttp, 'colliding_uid_groups': len(col), 'mismatching_runs': v['nbad'],
            'e1': 'InjectE1: credential case analysis of _inject_task1/_eject_task1 equals the map contract for 4 peers x 4 owner fields x every reachable 2-UID map (histories <= 3)', 'exhaustive': False}
     return vlib.finish(PID, tier, seed, 'model_checking', cov, t0, unlisted, listed,
